@@ -68,7 +68,13 @@ func (limitsEngine) Decode(raw []byte) (any, error) {
 
 func (limitsEngine) Gen(r *Rand, tier string) any {
 	c := &LimitsCase{}
-	switch r.Pick([]int{70, 6, 6, 6, 6, 6, 14}) {
+	switch r.Pick([]int{70, 6, 6, 6, 6, 6, 14, 5}) {
+	case 7:
+		c.Mode = "logical"
+		c.Depth = r.Range(1, 16)
+		c.Caught = r.Bool()
+		c.Forms = structProgram(r, "tail", c.Depth, c.Caught)
+		c.MaxLim = c.Depth*4 + 8
 	case 6:
 		c.Mode = "entry"
 		o := GenOpts{Swallow: r.Chance(1, 3), Errors: r.Chance(1, 4), LoadStr: r.Chance(1, 3), Macros: r.Chance(1, 3), Callbacks: r.Chance(1, 2),
@@ -514,6 +520,35 @@ func (e limitsEngine) runGeneral(c *LimitsCase, st *Stats) *Violation {
 			return v
 		}
 	}
+	// a budget and a cancellation configured together: whichever comes first decides
+	if !swallow && len(c.Budgets)+len(c.Cancels) == 0 && N > 2 {
+		for i := 0; i+1 < len(c.Picks) && i < 8; i += 2 {
+			n := int64(c.Picks[i]%uint64(N)) + 1
+			k := int64(c.Picks[i+1]%uint64(N)) + 1
+			run, err := c.run(c.Knobs, n, k)
+			if err != nil {
+				return Violf("harness", "%v", err)
+			}
+			st.Runs++
+			st.Inc("fault_budget_and_cancel_together")
+			failStep := min(k, n+1) // the step that does not succeed
+			wantCond := lisp.CondContextCancelled
+			if n+1 <= k {
+				wantCond = lisp.CondStepLimitExceeded // the budget is tested before the context is polled
+			}
+			if failStep > N {
+				continue
+			}
+			got := prefixBy(run.w.Events, func(ev Event) bool { return true })
+			want := prefixBy(ref.w.Events, func(ev Event) bool { return ev.Steps < failStep })
+			if d := cmpEvents(got, want); d != "" {
+				return Violf("budget-and-cancel", "budget %d with cancellation at poll %d: %s", n, k, d)
+			}
+			if run.out.Cond != wantCond {
+				return Violf("budget-and-cancel", "budget %d with cancellation at poll %d of %d steps: outcome %q, want %s", n, k, N, run.out.Result(), wantCond)
+			}
+		}
+	}
 	return nil
 }
 
@@ -797,6 +832,8 @@ func (e limitsEngine) runStruct(c *LimitsCase, st *Stats) *Violation {
 			k.MaxTail = lim
 		case "macro":
 			k.MaxMacro = lim
+		case "logical":
+			k.MaxLogic = lim
 		}
 		run, err := runLimits(k, hugeBudget, 0, c.Forms)
 		if err != nil {
